@@ -142,7 +142,7 @@ def judge(variant: Dict[str, Any], only_prop: Optional[str] = None) -> Dict[str,
                 ctx = analyse(prop, "quick", overlay_text=ov)
             kk = {k["key"] for k in known if k.get("property") == prop and k.get("status") == "known"}
             viol = [f for f in ctx.findings if f.key not in kk]
-            floors_ok = all(ctx.obligations.get(r, 0) >= fl for r, fl in ctx.floors.items())
+            floors_ok = all(ctx.obligations.get(r, 0) >= fl or any(f.rule == r for f in ctx.findings) for r, fl in ctx.floors.items())
         except AnalysisError as exc:
             viol, floors_ok = [], False
             res["details"].append(f"{prop}: ANALYSIS-ERROR {exc}")
